@@ -131,18 +131,24 @@ def protocol(kind, t1, t2, size, thr, chunk, fault_at, phase, s1, s2):
     return None
 
 
-_P = 'size: int, thr: int, chunk: int, fault_at: int, phase: int, s1: int, s2: int'
-_PRE = ['1 <= thr <= size', '5 * 1024 ** 2 <= chunk <= 5 * 1024 ** 3', 'chunk < size <= 2 * chunk',
-        '-1 <= fault_at <= 14', '0 <= phase <= 1', '-1 <= s1 <= 56', '-1 <= s2 <= 56']
+def protocol_fixed(kind, t1, t2, fault_at, phase, s1, s2):
+    """the schedule and the fault position are what is explored here: 8 MiB in 2 parts of 5 MiB (sizes are symbolic in
+    C01/C14)"""
+    M = 1024 ** 2
+    return protocol(kind, t1, t2, 8 * M, 5 * M, 5 * M, fault_at, phase, s1, s2)
+
+
+_P = 'fault_at: int, phase: int, s1: int, s2: int'
+_PRE = ['-1 <= fault_at <= 14', '0 <= phase <= 1', '-1 <= s1 <= 56', '-1 <= s2 <= 56']
 _FR = ('fault_at == -1', '0 <= fault_at <= 2', '2 < fault_at <= 4', '4 < fault_at <= 6', '6 < fault_at <= 9')
 OB_PROTO = dict(
-    id='CO.upload', impl='protocol', params=_P, pre=_PRE,
+    id='CO.upload', impl='protocol_fixed', params=_P, pre=_PRE,
     cases=[(k, t, -1) for k in ('upload-seekable', 'copy') for t in (1, 4)],
     cases_thorough=[(k, t, u) for k in ('upload-seekable', 'upload-stream', 'copy') for t in (1, 2, 3, 4) for u in (-1, 4)],
-    splits=[[fr, 'phase == 0', 's2 == -1'] for fr in _FR],
+    splits=[[fr, sr, 'phase == 0', 's2 == -1'] for fr in _FR for sr in ('s1 <= 28', '28 < s1')],
     splits_thorough=[[fr] for fr in _FR + ('9 < fault_at',)],
     timeout=(170, 1500),
-    bounds='2-part multipart upload (seekable stream; thorough: non-seekable stream) / copy of ONE transfer; every '
+    bounds='2-part multipart upload of 8 MiB (concrete sizes; seekable stream; thorough: non-seekable stream) / copy of ONE transfer; every '
            'task on its own model thread; one fault at a symbolic environment call (0..9; thorough 0..14), before '
            '(thorough: or after) the effect; default order = submission order plus one preemption of the create task or '
            'the final task (thorough: any task, plus a second preemption of the final task) when it has existed for a '
